@@ -10,6 +10,23 @@ let () =
       incr mism; Printf.printf "CORR-MISMATCH case=%s impl %s, model does not\n" id (List.hd obs)
     | _ ->
       (match inp with
+       | "HASH" :: pairs ->
+         (* the hash of the model (Model.AdjRIBOut.hkey_of) tells two paths apart iff ComputeHash does *)
+         (try
+           List.iteri (fun i t ->
+             let eq = String.index t '=' and bar = String.index t '|' in
+             let p1 = parse_path (String.sub t (eq + 1) (bar - eq - 1))
+             and p2 = parse_path (String.sub t (bar + 1) (String.length t - bar - 1)) in
+             let m = (match p1, p2 with
+               | PBgp (_, a), PBgp (_, b) -> if hkey_eq_dec (hkey_of a) (hkey_of b) then "1" else "0"
+               | _ -> "?") in
+             let io = (try String.sub (List.nth obs i) 0 1 with _ -> "<missing>") in
+             if m <> io then begin
+               incr mism;
+               Printf.printf "CORR-MISMATCH case=%s pair=%d (%s) model-hash-equal=%s impl-hash-equal=%s\n" id i t m io
+             end) pairs
+         with Failure _ | Invalid_argument _ | Not_found ->
+           incr mism; Printf.printf "CORR-MISMATCH case=%s driver cannot parse hash case\n" id)
        | st :: ct :: ops ->
          (try
            let (s, _) = parse_sess st in
